@@ -34,6 +34,15 @@ WORLD = {
     "codes": [{"t": 2, "act": 0}, {"t": 3, "act": 0}, {"t": 2, "act": 1}],     # the third activation creates mapping #4 (1 -> 2)
     "domains": [{"c": 1}, {"c": 3}],
 }
+# the two-node world: clients 2 and 4 are connected on another node; bridge manager double, connection state store and
+# cross-node pool are wired (harness xnode.go)
+WORLD_X = {
+    "nclients": 4, "online": [True, True, True, True], "xnode": True, "remote": [False, True, False, True],
+    "mappings": [{"l": 1, "t": 2, "proto": "socks"}, {"l": 3, "t": 4, "proto": "tcp"}, {"l": 0, "t": 2, "proto": "socks"},
+                 {"l": 2, "t": 1, "proto": "tcp"}, {"l": 1, "t": 3, "proto": "tcp"}],
+    "codes": [{"t": 2, "act": 0}, {"t": 3, "act": 0}], "domains": [{"c": 1}, {"c": 3}],
+}
+XNODE_CMDS = (SOCKS, DNS_QUERY, DNS_RESOLVE, NOTIFY, CONFIG_GET, MAP_DEL, MAP_LIST, TRAFFIC, CODE_ACT, DISCONNECT)
 CONNS = [("unknown", 0), ("fresh", 0), ("pending", 1), ("auth", 4), ("auth", 3), ("auth", 2), ("auth", 1)]
 
 
@@ -85,6 +94,21 @@ def systematic_cases(handled, aux_cmds):
     return cases
 
 
+def xnode_cases():
+    """every command that can act across nodes x body variant x every sender class x {honest, forged}, target / peer on another node"""
+    cases = []
+    for cmd in XNODE_CMDS:
+        for var in variants(cmd):
+            steps = []
+            for conn, who in CONNS:
+                for claim in (0, 2 if who != 2 else 1):
+                    if cmd == DISCONNECT and conn == "auth" and claim:
+                        continue
+                    steps.append(step(conn, who, cmd, claim=claim, **var))
+            cases.append(dict(copy.deepcopy(WORLD_X), mode="case", aux=True, steps=steps, tag="xnode"))
+    return cases
+
+
 def unhandled_cases(rng, handled, n):
     pool = [b for b in range(256) if b not in handled and b != NOTIFY]
     steps = []
@@ -117,6 +141,10 @@ def random_cases(rng, n, handled):
             w["domains"].append({"c": rng.randrange(1, nc + 1)})
         aux = rng.random() < 0.3
         faulty = rng.random() < 0.3
+        if rng.random() < 0.3:
+            # cluster mode; the clients without a local control connection may be connected on another node
+            w["xnode"] = True
+            w["remote"] = [(not o) and rng.random() < 0.7 for o in w["online"]]
         nm = len(w["mappings"]) + sum(1 for c in w["codes"] if c["act"])
         ncode, nd = len(w["codes"]), len(w["domains"])
         steps = []
@@ -408,7 +436,8 @@ def case_value(case, out, flags):
         socks[i] = m["proto"] == "socks"
     init = out["init"]
     world = [[[m[0], m[1], m[2], socks.get(m[0], False), m[3], m[4]] for m in init["mappings"]],
-             [list(c) for c in init["codes"]], [list(d) for d in init["domains"]], list(init["online"]), [list(b) for b in init["bind"]]]
+             [list(c) for c in init["codes"]], [list(d) for d in init["domains"]], list(init["online"]), [list(b) for b in init["bind"]],
+             bool(case.get("xnode")), [i + 1 for i, r in enumerate(case.get("remote") or []) if r and case.get("xnode")]]
     seen = {"m": len(init["mappings"]), "c": len(init["codes"]), "d": len(init["domains"])}
     steps = []
     for s, o in zip(case["steps"], out["steps"]):
@@ -448,7 +477,7 @@ def honest_twin(case):
 def twin_wanted(c):
     if any(s.get("fault", 0) > 0 for s in c["steps"]):
         return False      # which call is the k-th depends on map iteration order inside the services: two runs need not fail at the same place
-    return (c.get("tag") in ("sweep", "random", "corpus") or c.get("tag", "").startswith("history")) and any(s["claim"] for s in c["steps"])
+    return (c.get("tag") in ("sweep", "random", "corpus", "xnode") or c.get("tag", "").startswith("history")) and any(s["claim"] for s in c["steps"])
 
 
 def load_corpus():
@@ -503,6 +532,7 @@ def run(ctx, only_cases=None):
         cases += systematic_cases(handled, [NOTIFY])
         cases += unhandled_cases(ctx.rng, handled, 72 if thorough else 24)
         cases += history_cases(handled, [NOTIFY])
+        cases += xnode_cases()
         cases += answer_cases()
         cases += random_cases(ctx.rng, 2500 if thorough else 250, [h for h in HANDLED])
     pend = [c for c in cases if c.get("mode") == "pending"] + (pending_cases() if only_cases is None else [])
@@ -645,6 +675,8 @@ def run(ctx, only_cases=None):
     dist["pending_cases"] = len(pend)
     dist["pending_requests"] = sum(len(c["reqs"]) for c in pend)
     dist["pending_foreign_answers_sent"] = sum(1 for c, o in zip(pend, pnouts) for op in c["ops"] if op[0] == 1 and op[2] != o["forwarded"][op[1]])
+    dist["two_node_cases"] = sum(1 for c in cases if c.get("xnode"))
+    dist["steps_relaying_to_another_node"] = sum(1 for c, o in zip(cases, couts) for so in o["steps"] if any(d[1] >= 1000 for d in so["deliveries"]))
     dist["overlap_cases"] = len(ovl)
     dist["overlap_commands_by_kind"] = {k: sum(1 for c in ovl for t in c["threads"] if t["kind"] == k) for k in OVL_KINDS}
     dist["overlap_observations"] = sum(len(x) for o in oouts for x in o["obs"])
